@@ -387,7 +387,7 @@ Definition mkdir_all (s : fsys) (v : view) (path : str) (perm : N) : fsys * res 
       | Some (NFile _ _ _ _) => (s, RErrPath ENotADirectory (pi_left_part (sr_pi r)))
       | _ => (* symlink child (loop budget exceeded): falls through to the creation loop *)
           match sr_parent r with
-          | None => (s, RPanic)
+          | None => (s, RFail (sr_err r))     (* the volume does not exist *)
           | Some parent =>
               if negb (perm_on h parent (N.lor OpenWrite OpenLookup) (v_user v)) then (s, RFail EPermDenied)
               else (mkdir_all_loop (S (length (pi_path (sr_pi r)))) s v parent (sr_pi r) perm, ROk)
@@ -395,7 +395,7 @@ Definition mkdir_all (s : fsys) (v : view) (path : str) (perm : N) : fsys * res 
       end
   | None =>
       match sr_parent r with
-      | None => (s, RPanic)
+      | None => (s, RFail (sr_err r))     (* the volume does not exist *)
       | Some parent =>
           if negb (perm_on h parent (N.lor OpenWrite OpenLookup) (v_user v)) then (s, RFail EPermDenied)
           else (mkdir_all_loop (S (length (pi_path (sr_pi r)))) s v parent (sr_pi r) perm, ROk)
